@@ -283,7 +283,27 @@ def bornBranches (c : QCircuit Float) : Option (List Br) := do
 def failWith (c : QCircuit Float) (cls detail : String) : String :=
   s!"fail {cls} {detail} classes=[{",".intercalate (classesOf c)}]"
 
-def tolerance : Float := 1e-9
+mutual
+partial def cu3Mag : QGate Float → Float
+  | .lib n ps => if n == "CU3" then ps.foldl (fun a p => a + p.value.abs) 0.0 else 0.0
+  | .ctrl g => cu3Mag g
+  | .kron a b => cu3Mag a + cu3Mag b
+  | .composite _ _ ops => cu3MagOps ops
+  | .loop _ iters _ _ ops => iters.toFloat * cu3MagOps ops
+partial def cu3MagOps : QOps Float → Float
+  | .nil => 0.0
+  | .cons g _ r => cu3Mag g + cu3MagOps r
+end
+
+/-- Comparison tolerance.  The body of `cu3` ADDS its angles (`(lambda+phi)/2`, `(lambda-phi)/2`), so evaluating
+the reference in doubles loses `ulp(|angle|)` there — the only place where the reference semantics is
+ill-conditioned for huge angles (all other bodies only halve, negate or copy their parameters, which is exact in
+binary floating point).  The tolerance therefore grows with the magnitudes of the `CU3` parameters of the circuit;
+a circuit for which it would exceed 1e-4 is not compared (`skip`). -/
+def tolerance (c : QCircuit Float) : Float :=
+  1e-9 + 3.6e-15 * (c.ops.foldl (fun a o => match o with
+    | .gate g _ | .cond _ _ g _ => a + cu3Mag g
+    | _ => a) 0.0)
 
 def specCheck (line : String) : String :=
   match (line.trimAscii.toString).splitOn "\t" with
@@ -323,14 +343,14 @@ def specCheck (line : String) : String :=
             | none =>
               if !Spec.OQ2.usesOnlyQelib1 prog then failWith c "not_qelib1" "" else
               if !(validOperands c && wellPlacedCircuit c) then failWith c "unchecked_operands" "exported although the simulator rejects the operand list"
-              else if c.nq > 3 then "skip" else
+              else if c.nq > 3 || tolerance c > 1e-4 then "skip" else
               match bornBranches c, Spec.OQ2.run (α := CFloat) (P := Float) nonzero prog with
               | none, _ => "skip"
               | _, none => failWith c "no_semantics" "the reference semantics does not cover the program"
               | some bs, some ps =>
                 let dim := 2 ^ c.nq
                 let (d, w) := densityDist dim (density bs) (density ps)
-                if d ≤ tolerance then "ok"
+                if d ≤ tolerance c then "ok"
                 else
                   let cls := (classesOf c).headD "unexplained_mismatch"
                   failWith c cls s!"register={w} distance={d}"
